@@ -66,6 +66,9 @@ def parseOp : (fuel : Nat) → List String → Option Op
     | "set" :: j :: rest => do let j ← j.toNat?; let v ← argVal rest; pure (.w (.set j v))
     | ["clear", j] => j.toNat?.map (fun j => .w (.clear j))
     | ["mut", j] => j.toNat?.map (fun j => .w (.mut j))
+    -- `mutset j` = Mutable(fd) followed by Set(fd, that same view): storing a field's own mutable view
+    -- back is the identity (the view aliases the field), so it is the model's `mut`
+    | ["mutset", j] => j.toNat?.map (fun j => .w (.mut j))
     | ["newf", j] => j.toNat?.map (fun j => .r (.newf j))
     | ["setu"] => some (.w (.setu []))
     | ["setu", hex] =>
